@@ -3,6 +3,7 @@
 // library; the expected output comes from a reference interpreter of Documentation/Template.md that walks the AST (it never
 // parses template text). C17 (-DVERIF_C17) reuses generator and reference to check cached / repeated / concurrent renders.
 #include "common/pbt.hpp"
+#include <atomic>
 #include "common/jmodel.hpp"
 
 #include <algorithm>
@@ -1646,6 +1647,55 @@ std::string render_with_library(const Scenario &s, pbt::Ctx &ctx) {
             if (!(outs[t] == out)) {
                 ctx.fail("concurrent-render-differs", "a concurrent render differs from a fresh single render: " + s.text);
             }
+        }
+    }
+    // Template::Render with a caller-owned cache that other threads use at the same time, after a first render has filled it - for the
+    // template itself, and for the template behind an unclosed <loop ...>: the parser drops that loop and all it holds, so nothing is
+    // left to cache, and what is (not) cached must not be written again while others read it
+    {
+        Units tu2;
+        for (const char *t = "<loop value=\"zq\">"; *t; ++t) {
+            tu2.push_back(widen_unit<Char_T>((unsigned char)*t));
+        }
+        tu2.insert(tu2.end(), tu.begin(), tu.end());
+        jm::Buf<Char_T> tb2(tu2);
+        struct Shared {
+            const Char_T        *p;
+            SizeT                n;
+            Array<Tags::TagBit>  cache;
+            StringStream<Char_T> first;
+        };
+        Shared sh[2];
+        sh[0].p = tb.cp(), sh[0].n = SizeT(tb.n);
+        sh[1].p = tb2.cp(), sh[1].n = SizeT(tb2.n);
+        for (Shared &x : sh) {
+            Template::Render(x.p, x.n, v, x.first, x.cache);
+        }
+        if (!(sh[0].first == out)) {
+            ctx.fail("cached-render-differs", "Template::Render with a fresh tag cache differs from a render without one: " + s.text);
+        }
+        pbt::Watchdog            dog(120, "the concurrent Template::Render phase");
+        std::vector<std::thread> th;
+        std::atomic<int>         bad{0};
+        const Value<Char_T>     &sv = v;
+        for (unsigned t = 0; t < 3; ++t) {
+            th.emplace_back([&]() {
+                for (int k = 0; k < 6; ++k) {
+                    for (Shared &x : sh) {
+                        StringStream<Char_T> o;
+                        Template::Render(x.p, x.n, sv, o, x.cache);
+                        if (!(o == x.first)) {
+                            bad.fetch_add(1);
+                        }
+                    }
+                }
+            });
+        }
+        for (auto &x : th) {
+            x.join();
+        }
+        if (bad.load() != 0) {
+            ctx.fail("concurrent-render-differs", "a concurrent Template::Render through a shared tag cache differs from the first render: " + s.text);
         }
     }
     StringStream<Char_T> value_after;
